@@ -22,6 +22,9 @@ def seeds():
         "map": chain(("M", Map(chain(("I", Task("f"))), ItemsPath="$.items", MaxConcurrency=1, ItemSelector={"v.$": "$$.Map.Item.Value"}, Retry=RET)), Z),
         "map-legacy": chain(("M", Map(chain(("I", Pass())), legacy=True, ItemsPath="$.items", Parameters={"v.$": "$$.Map.Item.Value"})), Z),
         "nested": chain(("P", Parallel([chain(("M", Map(chain(("I", Pass())), ItemsPath="$.items"))), chain(("B1", Pass()))])), Z),
+        # a machine with a cycle: every state, the first included, has an incoming transition (the back edge is never taken by the inputs used)
+        "cycle": chain(("A", Pass(Result=1, ResultPath="$.n")), ("C", Choice([{"Variable": "$.n", "NumericEquals": 99, "Next": "A"}], default="Z")), Z),
+        "cycle-in-branch": chain(("P", Parallel([chain(("A1", Pass(Result=1, ResultPath="$.n")), ("C1", Choice([{"Variable": "$.n", "NumericEquals": 99, "Next": "A1"}], default="Z1")), ("Z1", Pass()))])), Z),
         "task-selector": chain(("T", Task("f", Parameters={"q.$": "$.x"}, ResultSelector={"r.$": "$"}, ResultPath="$.t", OutputPath="$.t")), Z),
     }
     return out
@@ -347,6 +350,23 @@ def run(tier, seed):
         if r[0] != "problems":
             sig = "validator|%s|%s" % (r[0], r[1] if r[0] == "raise" else "")
             cr.add(sig, "StateLint.validate(%s) -> %r (must return a list of problems)" % (json.dumps(v), r), {"kind": "value", "property": PROP, "signature": sig, "value": v}, size=len(json.dumps(v)))
+        elif r[1] == 0:
+            # "no problem" is a promise that the engine can interpret the value as a state machine: an execution of it starts and ends
+            for rr in run_machine(v, INPUTS[:1], OUTCOMES[:1]):
+                runs += 1
+                status, err, cause, escaped = rr[0], rr[1], rr[2], rr[3]
+                bad = None
+                if status == "harness":
+                    bad = ("engine-raises", "%s %s" % (err, cause))
+                elif escaped:
+                    bad = ("exception-escapes", escaped[0][:120])
+                elif status is None or status == "livelock":
+                    bad = ("never-runs", "an execution of it is never announced and never ends (the start event is dropped)")
+                elif any(x in str(cause) for x in ILLEGAL):
+                    bad = ("illegal-state-machine-at-run-time", str(cause)[-160:])
+                if bad:
+                    sig = "accepted-value|%s|%s" % (bad[0], type(v).__name__)
+                    cr.add(sig, "StateLint.validate(%s) reports no problem, but as a definition: %s" % (json.dumps(v), bad[1]), {"kind": "value", "property": PROP, "signature": sig, "value": v}, size=len(json.dumps(v)))
     hs = ht = hp = 0
     for (kind, payload), o in zip(hjobs, houts):
         if "error" in o:
@@ -366,7 +386,7 @@ def run(tier, seed):
         "samples": [{"seed": "choice", "mutation": "retarget States/C/Default -> Missing"}, {"event_body": "[1]"}],
         "mutants": nm, "mutants_accepted_by_validator": acc, "mutants_refused_and_run_anyway": rej, "engine_runs_of_accepted_mutants": runs, "json_values_validated": len(vals), "healthy_explorations": len(hjobs),
         "exhaustive": True,
-        "explanation": "all single mutations (drop / rename a field, retarget Next / Default / StartAt, retag Type, duplicate a state name across nesting levels, replace a value by each wrong JSON type) of 12 "
+        "explanation": "all single mutations (drop / rename a field, retarget Next / Default / StartAt, retag Type, duplicate a state name across nesting levels, replace a value by each wrong JSON type) of 14 "
                        "well-formed seed machines and a family of small JSON values are given to StateLint.validate (must return a list); every mutant without problems is run by the real engine for 3 inputs x "
                        "{task succeeds, task fails} (no 'Illegal State Machine', must end unless a machine has a cycle); every refused mutant is run too (must not raise, must go quiet, must end at most once, "
                        "must end if it was announced RUNNING); mutants, JSON values (as definitions) and malformed event bodies are placed next to two healthy executions and explored with deviation bound 2",
@@ -384,7 +404,10 @@ def replay(rp):
                 print(run_machine(m, INPUTS, OUTCOMES))
                 return 1
     if rp["kind"] == "value":
-        print(validate(rp["value"]))
+        v = validate(rp["value"])
+        print("validate ->", v)
+        if v == ("problems", 0):
+            print(run_machine(rp["value"], INPUTS[:1], OUTCOMES[:1]))
         return 1
     print(_healthy_job((rp["what"], rp["payload"])))
     return 1
